@@ -313,6 +313,44 @@ def outcome_from_slot(res, prog):
                         res.violation('C12.7', 'C12.7|stats-access|%s' % f.qual, f, t.get('line'), 'the finished-lookup statistics (keyed by leaf name, coarser than the slot key) are consulted in %s: an answer derived from them can belong to another module' % f.qual.split('::')[-1])
 
 
+def walks_driven_together(res, prog):
+    """C12.8: the per-thread walks share one symbolizer, so a walk may be suspended while it holds a module's slot lock.
+    That is only deadlock-free when every walk keeps being polled until all are done: the walk futures go straight into
+    one join_all that is awaited on the spot, and into_process_state polls nothing else in between (no priming poll,
+    no walk awaited on its own while the others are parked)."""
+    c = prog.crate('minidump_processor')
+    res.rule('C12.8', 0, floor=3, note='all per-thread walks are driven by a single join_all(..).await; no partial polling')
+    fs = [f for f in c.fns if re.search(r"MinidumpInfo::<'a>::into_process_state::\{closure#0\}$", f.qual)]
+    if len(fs) != 1:
+        res.error('C12.8', 'into_process_state body not found')
+        return
+    f = fs[0]
+    joins = [(b, t) for b, t in f.calls() if (f.callee(t) or '') == 'futures_util::future::join_all']
+    res.rule('C12.8', 1)
+    if len(joins) != 1:
+        res.violation('C12.8', 'C12.8|join_all', f, f.line, 'the per-thread walks are joined %d times' % len(joins))
+        return
+    jb, jt = joins[0]
+    arg = show(f.expand(f.operand_tree(jt['args'][0])))
+    res.rule('C12.8', 1)
+    if not re.match(r'^\(std::iter::Iterator::map \(std::iter::Iterator::enumerate \(std::iter::Iterator::zip \(core::slice::iter_mut .*state\.threads\)+ \(core::slice::iter .*self\.thread_list\.threads\)+\)\) \(closure ', arg):
+        res.violation('C12.8', 'C12.8|all-walks', f, jt.get('line'), 'join_all is not handed the walk of every thread (map(enumerate(zip(state.threads.iter_mut(), thread_list.threads.iter())), ..)): %s' % arg[:200])
+    polls = [(b, t) for b, t in f.calls() if re.search(r'Future>::poll$|Future::poll$', (f.callee(t) or '')) or re.search(r'Future::poll$', f.callee_decl(t) or '')]
+    for b, t in polls:
+        res.rule('C12.8', 1)
+        n = f.callee(t) or ''
+        if 'futures_util::future::JoinAll' not in n or t.get('ds') != 'Await':
+            res.violation('C12.8', 'C12.8|poll|%s' % n.split(' as ')[0][:60], f, t.get('line'), 'into_process_state polls %s: something other than `join_all(all walks).await` is driving futures here' % n[:100])
+    for g in c.fns:
+        if not (g is f or g.qual.startswith(f.qual + '::{')):
+            continue
+        for b, t in g.calls():
+            n = g.callee(t) or ''
+            if re.search(r'futures_util::future::(maybe_done|poll_fn|select|select_all|select_ok|try_join_all|FutureExt::now_or_never|poll_immediate)|futures_util::stream::FuturesUnordered|futures_util::stream::FuturesOrdered|tokio::(spawn|task::spawn)|std::future::poll_fn', n):
+                res.rule('C12.8', 1)
+                res.violation('C12.8', 'C12.8|combinator|%s' % n.split('::')[-1], g, t.get('line'), '%s: a walk that is not polled to completion together with the others can park while holding a slot lock another walk needs' % n)
+
+
 def run(tier, t0):
     res = harness.Result(PID)
     prog = program()
@@ -323,6 +361,7 @@ def run(tier, t0):
     guards_across_await(res, prog)
     no_reentry(res, prog)
     outcome_from_slot(res, prog)
+    walks_driven_together(res, prog)
     res.assumptions += [
         'futures_util::lock::Mutex is a fair async mutex: a task waiting for the lock is woken when the guard is dropped (trusted)',
         'cachemap2::CacheMap::cache_default returns the same slot for equal keys and never removes entries (trusted; insert-only API)',
